@@ -1,7 +1,7 @@
 """C05 - shuffle / partial_shuffle are exact uniform permutations of the slice."""
 from . import common as C, gen_int as G, oracles as O
 
-LEAN_MODULE = "Urandom.Props.C05"
+LEAN_MODULE = ["Urandom.Props.C05", "Urandom.Props.C05T"]
 RULE = ("requests: shuffle / partial_shuffle(n) on slices of length 0..24 (and a few hundred), n in {0,1,len-1,len,len+1,usize::MAX,random}, "
         "scripted words realising chosen index values at both ends of their acceptance interval with interspersed rejected words; "
         "non-trivial = slice length >= 2; distinct = distinct request line. extra: complete enumeration of the index-tuple space for n <= 6 on the implementation")
